@@ -41,4 +41,5 @@ func checkC07(c *core.Ctx) {
 	rulePairAll(c)
 	ruleErrorMustPropagate(c)
 	ruleEventsDecorator(c)
+	ruleCommitResultPropagated(c)
 }
